@@ -33,6 +33,14 @@ def make_job(name, parts_fn):
         obs['err'] = F.eval_pieces(m, ep).decode('latin1'); obs['out'] = F.eval_pieces(m, op).decode('latin1')
         if obs['panic']:
             obs['viol'] = {'aspect': 'panic' if 'step limit' not in obs['panic'] else 'hang', 'what': obs['panic']}; return obs
+        try: wit.decode('utf-8'); valid = True
+        except UnicodeDecodeError: valid = False
+        obs['valid_utf8'] = valid
+        if not valid:
+            # bytes that are not UTF-8: a read error, exit 103, nothing printed, nothing run
+            if code != 103 or obs['parsed'] or op or b"couldn't read" not in b''.join(p for p in ep if isinstance(p, bytes)):
+                obs['viol'] = {'aspect': 'read-error', 'what': 'input that is not valid UTF-8: exit %s, stdout %r, stderr %r, evaluation %s' % (code, obs['out'][:60], obs['err'][:100], 'entered' if obs['parsed'] else 'not entered')}
+            return obs
         if code not in (0, 103): obs['viol'] = {'aspect': 'exit', 'what': 'exit status %s' % code}; return obs
         if code == 0:
             if not obs['parsed']: obs['viol'] = {'aspect': 'exit', 'what': 'exit 0 without reaching evaluation'}
@@ -59,6 +67,7 @@ def make_job(name, parts_fn):
             if o['panic']:
                 okr = nat[0] == 101 or (isinstance(nat[0], int) and nat[0] < 0) or nat[0] == 'timeout'
             elif o.get('parsed'): okr = nat[0] in (0, 103) and not re.search(rb"unexpected|is too high for an int|is not a valid|must be escaped|interpolation slots start", nat[2].split(b'\n')[0]) or b'is not defined' in nat[2]
+            elif not o.get('valid_utf8', True) and b"couldn't read script" in nat[2] and "couldn't read script" in o['err']: okr = nat[0] == o['code'] and nat[1] == o['out'].encode('latin1')      # (the message echoes the working directory)
             else: okr = nat[0] == o['code'] and nat[1] == o['out'].encode('latin1') and nat[2] == o['err'].encode('latin1')
             if okr: res['replay_ok'] += 1
             else: res['inconclusive'].append('engine/native disagreement on %r: native=%r predicted=%r' % (w, (nat[0], nat[1][:60], nat[2][:160]), (o['code'], o['out'][:60], o['err'][:160], o['panic'])))
@@ -69,6 +78,7 @@ def make_job(name, parts_fn):
                 a = o['viol']['aspect']
                 conf = (a == 'panic' and (n2[0] == 101 or (isinstance(n2[0], int) and n2[0] < 0))) or (a == 'hang' and n2[0] == 'timeout') or (a == 'exit' and n2[0] not in (0, 103)) or \
                        (a == 'stdout' and n2[0] == 103 and n2[1] != b'') or (a == 'format' and n2[0] == 103 and not POS_RE.match(n2[2])) or \
+                       (a == 'read-error' and not (n2[0] == 103 and n2[1] == b'' and b"couldn't read" in n2[2])) or \
                        (a == 'line-bound' and POS_RE.match(n2[2]) and int(POS_RE.match(n2[2]).group(1)) > wv.count(b'\n') + 2)
                 if conf: res['violations'].append({'aspect': a, 'role': 'frontend:%s' % a, 'what': o['viol']['what'] + ' on input %r' % wv[:80], 'script': wv, 'ext': 'sd'})
                 else: res['inconclusive'].append('front-end violation not reproduced natively: %r on %r' % (o['viol'], wv[:80]))
@@ -112,6 +122,38 @@ def prefix_parts(prefix, add_sym):
     def f():
         return [prefix] + ([('sym', 'b0', S.ASCII)] if add_sym else [])
     return f
+
+STACK_UNITS = {'blank-lines': (b'', b'\n', b'print(1)\n'), 'comment-lines': (b'', b'# c\n', b'print(1)\n'), 'semicolons': (b'', b';', b'print(1)\n'), 'spaces': (b'', b' ', b'print(1)\n'),
+               'statements': (b'', b'x := 1\n', b''), 'string-chars': (b'x := "', b'a', b'"\n'), 'ident-chars': (b'x := a', b'a', b'\n'), 'comment-chars': (b'# ', b'c', b'\n'), 'digit-separators': (b'x := 1', b'_', b'\n'),
+               'continuations': (b'x := 1', b' +\n 1', b'\n'), 'list-items': (b'x := [', b'1, ', b']\n'), 'terminators-after-op': (b'x := 1 +', b'\n', b' 2\n')}
+def stack_job(kind):
+    """the call depth of the front end must not grow with the length of flat (un-nested) input: the same unit repeated 40 / 80 / 160 times"""
+    pre, unit, post_ = STACK_UNITS[kind]
+    def path_fn(M):
+        M.symvars = {}
+        S.stop_after_parse(M)
+        depths = []
+        for k in (40, 80, 160):
+            M.max_depth = 0; M.depth = 0
+            try: H.run_cli(M, 't.sd', pre + unit * k + post_)
+            except Panic as e: return {'kind': kind, 'panic': str(e)[:200], 'depths': depths}
+            depths.append(M.max_depth)
+        return {'kind': kind, 'panic': None, 'depths': depths}
+    def post(rows, res, binary, wd):
+        for r in rows:
+            o = r['obs']; res['obligations'] += 1
+            if o['panic'] or len(o['depths']) < 3: res['inconclusive'].append('stack-growth/%s: %r' % (kind, o)); continue
+            d = o['depths']
+            if d[0] == d[1] == d[2]: res['discharged'] += 1; res['replay_ok'] += 1; res['replayed'] += 1; continue
+            # depth grows with the input length: confirm on the native binary with a long input
+            big = pre + unit * 200000 + post_
+            nat = F.native_run(binary, big, wd); res['replayed'] += 1
+            if nat[0] not in (0, 103):
+                res['replay_ok'] += 1
+                res['violations'].append({'aspect': 'panic', 'role': 'frontend:stack-growth', 'what': 'call depth of the front end grows with the number of %s (%r at 40 / 80 / 160 units); 200000 units end the process with status %r' % (kind, d, nat[0]),
+                                          'script': pre + unit * 3 + b'# ... the unit %r repeated 200000 times ...\n' % unit + post_, 'ext': 'sd'})
+            else: res['inconclusive'].append('stack-growth/%s: call depth %r grows with the input but 200000 units run natively (status %r)' % (kind, d, nat[0]))
+    return {'name': 'stack-%s' % kind, 'path_fn': path_fn, 'post': post, 'timeout': 600}
 
 def layout_parts(n, tail):
     """n symbolic layout bytes (CR, LF, space, tab, `#`) and then a token that cannot start a statement"""
@@ -160,6 +202,11 @@ def run(tier, seed):
     # runs of layout bytes before an offending token (the line bound for CR / LF / tab / comment mixes)
     nlay = 4 if tier == 'quick' else 5
     ljobs = [make_job('layout-%d-lexerr' % nlay, layout_parts(nlay, b'@')), make_job('layout-%d-parseerr' % nlay, layout_parts(nlay, b')'))]
+    # bytes that are not UTF-8 anywhere in the file: the read error, before anything runs
+    def any_bytes(n): return lambda: [('sym', 'b%d' % i, None) for i in range(n)]
+    def tail_bytes(prefix, n, suffix): return lambda: [prefix] + [('sym', 'b%d' % i, lambda b: z3.UGE(b, 0x80)) for i in range(n)] + [suffix]
+    ujobs = [make_job('anybytes-1', any_bytes(1)), make_job('anybytes-2', any_bytes(2)), make_job('nonutf8-mid-1', tail_bytes(b'print(1)\n# ', 1, b'\nprint(2)\n)\n')), make_job('nonutf8-mid-2', tail_bytes(b'print(1)\nx := "', 2, b'"\nprint(2)\n')),
+             make_job('nonutf8-first-line', tail_bytes(b'# ', 1, b'\nprint(1)\n')), make_job('nonutf8-last', tail_bytes(b'print(1)\nprint(2)\n# ', 1, b''))]
     # long tokens: a multi-byte character placed at every length constant that occurs in the current source (a truncation, a buffer or a
     # slice bound of the front end would sit there), as the unexpected token of a syntax error
     ks = source_constants()
@@ -187,10 +234,14 @@ def run(tier, seed):
         pjobs.append(make_job('unterminated-%d-exact' % i, prefix_parts(s, False)))
     c.bounds = {'symbolic_inputs': 'all valid-UTF-8 inputs of <= 2 bytes, all strings of 3 bytes over a 31-character punctuation alphabet, an ASCII byte before / after any 2-byte character, 1-2 bytes of an 11-character alphabet around any 2- / 3-byte character (quick); <= 3 bytes UTF-8 and 4 bytes punctuation (thorough)',
                 'truncations': '%d (script, offset) pairs sampled from the %d repository test scripts (VERIF_SEED), each followed by one symbolic ASCII byte; 22 unterminated constructs' % (nprefix, len(tests))}
-    c.outside = ['inputs longer than the stated sizes that are not such truncations', 'files that are not valid UTF-8 (only the read-error arm exists; the error value is opaque)', 'token-level mutations (not built)']
-    big = [j for j in sjobs if j['name'] in ('punct-3', 'punct-4', 'bytes-3')]; small = [j for j in sjobs if j not in big]
+    c.outside = ['inputs longer than the stated sizes that are not such truncations', 'token-level mutations (not built)']
+    big = [j for j in sjobs if j['name'] in ('punct-3', 'punct-4', 'bytes-3', 'bytes-2')]; small = [j for j in sjobs if j not in big]
     for j in big: c.run_jobs('symbolic-bytes', [j], par_jobs=1, par_paths=16, timeout=3000)
     c.run_jobs('symbolic-bytes', small, par_jobs=len(small), par_paths=max(2, 16 // max(1, len(small))), timeout=3000)
+    c.run_jobs('stack-growth', [stack_job(k) for k in STACK_UNITS], par_jobs=12, par_paths=1)
+    c.bounds['stack_growth'] = 'call depth of the front end on %d kinds of flat input (%s) at 40 / 80 / 160 repetitions must be constant; a growth is confirmed natively with 200000 repetitions' % (len(STACK_UNITS), ', '.join(STACK_UNITS))
+    c.run_jobs('non-utf8', ujobs, par_jobs=6, par_paths=2, timeout=3000)
+    c.bounds['non_utf8'] = 'all inputs of <= 2 arbitrary bytes; 1-2 arbitrary bytes >= 0x80 inside a comment / a string literal on the first, a middle and the last line of a script'
     c.run_jobs('layout-runs', ljobs, par_jobs=2, par_paths=8, timeout=3000)
     c.run_jobs('long-tokens', tjobs, par_jobs=16, par_paths=1)
     c.bounds['layout_runs'] = 'every string of %d bytes over {CR, LF, space, tab, #} followed by `@` (lexical error) or `)` (syntax error)' % nlay
